@@ -377,6 +377,9 @@ class PathCtx:
                 feas.append(i)      # c infeasible => not c feasible (path condition is satisfiable)
             elif self.feasible(c):
                 feas.append(i)
+        if self.lemmas and feas:
+            # options refuted by the quantified lemmas are dead (only `unsat` is trusted from that query)
+            feas = [i for i in feas if self._prove_unsat(conds[i]) != z3.unsat]
         if not feas:
             self.trace.append([0, []])
             raise PathAbort("infeasible at choose(%s)" % label)
@@ -706,6 +709,7 @@ class State:
         s.log_len = len(self.log)
         s.state = self
         s.heap_gen = self.heap_gen
+        s.next_id = self.next_id
         return s
 
     def field_arr(self, name):
